@@ -21,6 +21,9 @@ import (
 	"github.com/PowerDNS/lmdb-go/lmdb"
 
 	"verif/lib/ev"
+	"verif/lib/explore"
+	"verif/lib/loopworld"
+	"verif/lib/xrun"
 	"verif/lib/fleet"
 	"verif/lib/inst"
 	"verif/lib/par"
@@ -135,13 +138,27 @@ func expand(hist []string, param json.RawMessage) statemc.Result {
 	return res
 }
 
+// part (c): the real sync loop; only the upload-accounting oracle is judged here.
+func runLoop(param json.RawMessage, ctx *explore.Ctx, viols *[]xrun.Viol) string {
+	var cfg loopworld.Cfg
+	_ = json.Unmarshal(param, &cfg)
+	res := loopworld.Run(cfg, ctx)
+	for _, v := range res.Viols {
+		if strings.HasPrefix(v.Sig, "c03:") || strings.HasPrefix(v.Sig, "c09:") {
+			continue
+		}
+		*viols = append(*viols, xrun.Viol{Sig: v.Sig, Msg: v.Msg})
+	}
+	return fmt.Sprintf("%s/stores=%d/commits=%d/loads=%d", res.Outcome, res.Stores, res.Commits, res.Loads)
+}
+
 func main() {
 	flag.Parse()
-	par.ServeIfWorker(map[string]par.Handler{"x": statemc.Handler(expand)})
+	par.ServeIfWorker(map[string]par.Handler{"x": statemc.Handler(expand), "loop": xrun.Handler(runLoop)})
 	r := ev.Start("C10")
 	defer r.RecoverMain()
 	defer world.Cleanup()
-	r.SetBudget(ev.Pick(r, 90*time.Second, 25*time.Minute))
+	r.SetBudget(ev.Pick(r, 150*time.Second, 30*time.Minute))
 	r.Assume("DBIs without the dupsort hack", "part (b) replicates the loop's upload rule (LastTxnID > lastSyncedTxnID) in the harness; the real loop is explored by the E3 sync-loop scenario")
 
 	// ---------- part (a) ----------
@@ -317,6 +334,16 @@ func main() {
 		r.AddPart(&ev.Part{Name: rn.name, Engine: "E2", States: st.States, Transitions: st.Transitions, Executions: st.Transitions, Distinct: int64(st.Terminals), Exhaustive: st.Exhaustive,
 			Bound:   fmt.Sprintf("BFS depth %d of %d completed (frontier sizes %v); every state followed by a write-free phase of exchange rounds under the loop's upload rule; cfg %s", st.Depth, rn.depth, st.PerDepth, cj),
 			Samples: st.Samples})
+	}
+	// ---------- part (c) ----------
+	for _, native := range []bool{true, false} {
+		name := map[bool]string{true: "c-loop-native", false: "c-loop-shadow"}[native]
+		if r.Expired() {
+			r.AddPart(&ev.Part{Name: name, Engine: "E3", Exhaustive: false, Bound: "not started: time budget used up"})
+			continue
+		}
+		xrun.Explore(r, name, xrun.Opts{Kind: "loop", Bound: ev.Pick(r, 2, 3), Budget: 30, Recycle: 4,
+			Param: loopworld.Cfg{Native: native, Remote2: true, TwoRemotes: true, MaxVisits: 1, AppOps: []string{"put-b", "del-a"}}})
 	}
 	r.Finish()
 }
